@@ -189,3 +189,28 @@ Definition node_acts (c : cfg) (ph : N) : list row :=
 Definition census (nodes : list (cfg * N)) : list (N * N) :=
   let all := flat_map (fun cn => node_acts (fst cn) (snd cn)) nodes in
   filter (fun p => negb (N.eqb (snd p) 0)) (map (fun code => (code, N.of_nat (count_code code all))) codes).
+
+(* ---- blocking channel sends during Stop ------------------------------------------------------------------------- *)
+(* Control.Stop cancels the context first and then, still before Interface.Close, sends a CloseTunnel on every tunnel
+   (CloseAllTunnels -> Interface.send).  A channel send performed in that phase blocks for ever if every goroutine that
+   receives from the channel has returned.  Channel 1 is LightHouse.queryChan (capacity handshakes.query_buffer), filled
+   by LightHouse.QueryServer and drained only by the lighthouse query worker (table row 12, guard: context).  How many
+   entries a send of a given message type puts into it is measured on the real code (gen/Tab_Lifecycle.v). *)
+Definition receivers (ch : N) : list N := if N.eqb ch 1 then [12%N] else [].
+
+(* the channels the tunnel-closing phase sends into, given what a CloseTunnel send does on a plain node whose tunnel has
+   been idle since the last rebind (the worst case) *)
+Definition stop_sends (close_tunnel_queries : N) : list N := if N.eqb close_tunnel_queries 0 then [] else [1%N].
+
+Definition live_receiver (s : lst) (code : N) : bool :=
+  existsb (fun r => N.eqb (r_code r) code && negb (has (r_guard r) (l_closed s))) (l_acts s).
+
+(* some send of the list goes into a channel none of whose receivers is still running *)
+Definition may_block (s : lst) (sends : list N) : bool :=
+  existsb (fun ch => negb (existsb (live_receiver s) (receivers ch))) sends.
+
+Definition lookup_queries (tab : list (N * bool * bool * N)) (t : N) (mism lh : bool) : option N :=
+  match find (fun r => let '(t', m', l', _) := r in N.eqb t' t && Bool.eqb m' mism && Bool.eqb l' lh) tab with
+  | Some (_, _, _, n) => Some n
+  | None => None
+  end.
